@@ -72,7 +72,7 @@ def make_cassette(config):
 
 KEY_TEXTS = ['plain', 'quo"te', "apos'trophe", u'unicodé 中文', 'a/b', 'a_b', 'dot.json', 'hash #1', '{"json": 1}',
              'back\\slash', 'new\nline', 'input: x args=[], kwargs=[]', 'output: y #1.output', '', ' ',
-             'tab\t', '%s %d', 'A/AB', '../up']
+             'tab\t', '%s %d', 'A/AB', '../up', '__metadata', '_meta', 'metadata']
 
 
 def make_data(rnd, rich):
